@@ -7,5 +7,5 @@ VARIABLES c, n
 Covered(ch) == ~ch.aux /\ ~(ch.ts.k = "chain" /\ ch.ts.of = "select")
 Init == c \in {ch \in Choices(Deep) : Covered(ch)} /\ n \in 0..Rounds
 Next == UNCHANGED <<c, n>>
-Emit == PrintT("@@CASE " \o ToJson([choice |-> c, n |-> n, schema |-> Valid(c), conforming |-> Conforming(Valid(c)), pop |-> Pop(Valid(c), n)]))
+Emit == PrintT("@@CASE " \o ToJson([choice |-> c, n |-> n, schema |-> Valid(c), conforming |-> Conforming(Valid(c)), pop |-> Pop(Valid(c), n), states |-> States(Pop(Valid(c), n), n)]))
 ====
